@@ -246,7 +246,40 @@ def mate (P : Proto) (pop : Pop α) (xc : List (List Nat)) (nmating nprogeny : C
         .ok { rows := rows, pc := pc + cnt, fc := fc + xc.length,
               grpMeta := Np.uniqueRuns (rows.map Row.grp) }
 
+/-! ### histories: several `mate()` calls on ONE protocol object (round 5) -/
+
+/-- the arguments of one `mate()` call; the protocol object supplies the two counters -/
+structure Call (α ρ : Type) where
+  pop : Pop α
+  xc : List (List Nat)
+  nmating : Cnt
+  nprogeny : Cnt
+  nself : Nat
+  xo : List ρ
+  draws : List (DrawMat ρ)
+
+/-- successive `mate()` calls on one object: call `k` starts from the counters call `k-1` left behind
+    (`self.progeny_counter += progcnt`, `self.family_counter += nfam`); nothing else is kept between calls -/
+def mateSeq (P : Proto) : Nat → Nat → List (Call α ρ) → Except Err (List (Out α))
+  | _, _, [] => .ok []
+  | pc, fc, c :: cs =>
+    match mate P c.pop c.xc c.nmating c.nprogeny c.nself c.xo pc fc c.draws with
+    | .error e => .error e
+    | .ok o =>
+      match mateSeq P o.pc o.fc cs with
+      | .error e => .error e
+      | .ok os => .ok (o :: os)
+
 end protocols
+
+/-- a non-negative integer stored in a `bits`-wide integer dtype (two's complement when `signed`), as
+    `numpy.arange(start, stop, dtype = …)` stores it when `start` itself fits: reduced modulo `2^bits` -/
+def wrapInt (bits : Nat) (signed : Bool) (v : Nat) : Int := wrapMul bits signed v 1
+
+/-- `numpy.arange(fc, fc + n, dtype = <bits-wide dtype>)`.  The code builds the family labels with `dtype = 'int64'`
+    (`labelsInDtype 64 true`), whatever dtype the PARENTS' `taxa_grp` has; a variant that builds them in the parents'
+    label dtype is `labelsInDtype 8 true` for int8 parents. -/
+def labelsInDtype (bits : Nat) (signed : Bool) (fc n : Nat) : List Int := (Np.arange fc n).map (wrapInt bits signed)
 
 /-! ### the public call: numpy index rule for `xconfig`, marker metadata of the result -/
 
